@@ -115,6 +115,9 @@ func (f *Fam) Gen(r *rand.Rand, i int) string {
 	coin := func() string {
 		return hx([]byte(denoms[r.Intn(len(denoms))])) + ":" + genBig(r).String()
 	}
+	if r.Intn(5) == 0 {
+		return f.genWire(r)
+	}
 	switch r.Intn(15) {
 	case 0:
 		return fmt.Sprintf("uv %d", genU64(r))
@@ -233,6 +236,9 @@ func (f *Fam) Exec(op string) (obs string, fails []common.Failure) {
 	w := strings.Fields(op)
 	fail := func(clause, sig, detail string) {
 		fails = append(fails, common.Failure{Clause: clause, Signature: sig, Detail: detail})
+	}
+	if strings.HasPrefix(w[0], "mon.") {
+		return f.execWire(op, w, fail), fails
 	}
 	switch w[0] {
 	case "reg":
